@@ -521,6 +521,14 @@ func (c18) Gen(rng *rand.Rand, tier string, emit func(string)) {
 	cmd("obiclean", "nofault-side-ratio", 150, 0, "fasta")
 	cmd("obiclean", "nofault-side-graph", 5, 0, "fasta")
 	cmd("obiclean", "nofault-side-both", 1+rng.Intn(40), 0, "fasta")
+	// BOTH options, 2 or 3 samples: graph faulted + table fine (the later success must not erase the failure: seeded
+	// C18-m7), graph fine + table faulted, both faulted, both fine; every sample in turn owns the faulted graph, so that it
+	// is met first / last in the map order of SaveGMLGraphs
+	for _, sc := range []string{"both2-fullA-ok", "both2-fullB-ok", "both3-fullA-ok", "both3-fullB-ok", "both3-fullC-ok", "both3-isdirB-ok", "both2-isdirA-ok",
+		"both2-ok-full", "both3-ok-nodir", "both2-fullA-full", "both3-isdirC-full", "both3-fullB-nodir", "both2-ok-ok", "both3-ok-ok"} {
+		cmd("obiclean", sc, 3, 0, "fasta")
+	}
+	cmd("obiclean", fmt.Sprintf("both3-%s%c-%s", []string{"full", "isdir"}[rng.Intn(2)], "ABC"[rng.Intn(3)], []string{"ok", "ok", "full", "nodir"}[rng.Intn(4)]), 1+rng.Intn(150), 0, "fasta")
 	// second outputs written by a goroutine that registers its pipes itself (dynamic registration, Props/C18Reg.lean)
 	for _, name := range []string{"obigrep", "obimultiplex", "obitagpcr"} {
 		cmd(name, "dyn-devfull", 3, 0, "fasta")
